@@ -203,12 +203,32 @@ type event struct {
 	data    string
 	line    int
 	err     error
+	// rec is the delivered record itself: a destination set may keep it
+	rec *hostsfile.Record
 }
 
 type recorder struct{ ev []event }
 
 func (s *recorder) Add(rec *hostsfile.Record) {
-	s.ev = append(s.ev, event{add: true, addr: rec.Addr, names: slices.Clone(rec.Names), source: rec.Source})
+	s.ev = append(s.ev, event{add: true, addr: rec.Addr, names: slices.Clone(rec.Names), source: rec.Source, rec: rec})
+}
+
+// retained checks that the records a set kept are, after Parse has returned, still what they were when delivered.
+func retained(ev []event) string {
+	seen := map[*hostsfile.Record]int{}
+	for i, e := range ev {
+		if !e.add {
+			continue
+		}
+		if j, dup := seen[e.rec]; dup {
+			return fmt.Sprintf("events #%d and #%d delivered the same *Record", j, i)
+		}
+		seen[e.rec] = i
+		if e.rec.Addr != e.addr || !slices.Equal(e.rec.Names, e.names) || e.rec.Source != e.source {
+			return fmt.Sprintf("the record delivered as event #%d (%s) reads %v %q source=%q after Parse returned", i, fmtEvent(e), e.rec.Addr, e.rec.Names, e.rec.Source)
+		}
+	}
+	return ""
 }
 
 type handleRecorder struct{ recorder }
@@ -393,6 +413,9 @@ func runParse(c parseCase) (what string, evals int) {
 		got = rs.ev
 	}
 	evals = len(got) + 1
+	if w := retained(got); w != "" {
+		return w, evals
+	}
 	if c.Frag == fErrAfter {
 		if !errors.Is(err, errInjected) {
 			return fmt.Sprintf("reader failed after %d bytes but Parse returned %v", c.ErrAt, err), evals
@@ -567,6 +590,51 @@ func TestParse(t *testing.T) {
 		r.Count("input_lines", lines)
 		r.Count("parse_runs", int64(hi-lo)*int64(nFrag)*4)
 		r.Count("runs_with_injected_read_error", errRuns)
+	})
+	// long inputs: hundreds of lines (the scanner shifts and regrows its buffer while the destination set keeps the
+	// earlier records) and single lines of up to 60 000 bytes (below bufio.MaxScanTokenSize)
+	nLong := r.Pick(48, 1200)
+	mon.Parallel(nLong, func(w, lo, hi int) {
+		var e, lines int64
+		for i := lo; i < hi; i++ {
+			rng := rand.New(rand.NewPCG(r.Seed+77, uint64(i)))
+			var sb strings.Builder
+			for k := 100 + rng.IntN(500); k > 0; k-- {
+				switch rng.IntN(40) {
+				case 0:
+					sb.WriteString("# " + strings.Repeat("x", []int{4090, 4095, 4096, 4097, 8192, 20000, 60000}[rng.IntN(7)]))
+				case 1:
+					sb.WriteString("1.2.3.4")
+					for j := 200 + rng.IntN(1500); j > 0; j-- {
+						fmt.Fprintf(&sb, " h%d.example", j)
+					}
+				case 2:
+					sb.WriteString("::1 ok.example " + strings.Repeat("y", 5000) + ".example after.example")
+				default:
+					sb.WriteString(pool[rng.IntN(len(pool))])
+					if rng.IntN(3) == 0 {
+						fmt.Fprintf(&sb, " n%d.example", k)
+					}
+				}
+				sb.WriteString([]string{"\n", "\n", "\n", "\r\n", "\n\n"}[rng.IntN(5)])
+			}
+			in := sb.String()
+			lines += int64(len(refLines([]byte(in))))
+			frag := []int{fWhole, fChunks, fDataEOF, fZeroReads, fErrAfter}[i%5]
+			c := parseCase{Input: in, Frag: frag, Buf: bufs[rng.IntN(len(bufs))], Named: i%2 == 0, Handle: i%4 < 2, Seed: uint64(i)}
+			if frag == fErrAfter {
+				c.ErrAt = rng.IntN(len(in) + 1)
+			}
+			what, ev := runParse(c)
+			e += int64(ev)
+			if what != "" {
+				r.Violation(fmt.Sprintf("parse-long:%d", i), fmt.Sprintf("Parse of a %d-byte input (long-input case %d, seed %d) read as [%s], buf %d, named=%v, HandleSet=%v: %s", len(in), i, r.Seed, fragNames[frag], c.Buf, c.Named, c.Handle, what), c)
+			}
+		}
+		r.Eval(e)
+		r.NontrivialN(int64(hi - lo))
+		r.Count("long_inputs", int64(hi-lo))
+		r.Count("long_input_lines", lines)
 	})
 	r.Sample(parseCase{Input: "1.2.3.4 host.one\r\r\n\n# c\n::1 localhost", Frag: fZeroReads, Buf: 1, Named: true, Handle: true})
 	r.Note("fragmentations", fragNames)
